@@ -2,6 +2,7 @@ package checks
 
 import (
 	"math/rand"
+	"time"
 
 	"verifharness/internal/core"
 	"verifharness/internal/gen"
@@ -35,9 +36,50 @@ func unsatBiasedCNF(r *rand.Rand, maxN int) (int, [][]int) {
 	return n, gen.Shuffle(r, clauses)
 }
 
+func clauseList(v any) [][]int {
+	res := [][]int{}
+	l, _ := v.([]any)
+	for _, c := range l {
+		res = append(res, append([]int{}, toInts(c)...))
+	}
+	return res
+}
+
+// musCases: every clause sequence enumerated by MUS.tla through the four MUS methods and UnsatSubset.
+func musCases(env *core.Env, emitted []core.Case) []core.Case {
+	var res []core.Case
+	for _, e := range emitted {
+		ev := []gen.M{{"op": "mus", "method": "MUS"}, {"op": "mus", "method": "MUSDeletion"}, {"op": "mus", "method": "MUSInsertion"}, {"op": "mus", "method": "MUSMaxSat"}, {"op": "subset"}}
+		res = append(res, gen.M{"drv": "explain", "n": int(e["n"].(float64)), "clauses": clauseList(e["F"]), "ev": ev})
+	}
+	return res
+}
+
+// rupCases: every (problem, certificate) pair enumerated by RUPCheck.tla through both entry points.
+func rupCases(env *core.Env, emitted []core.Case) []core.Case {
+	var res []core.Case
+	for i, e := range emitted {
+		if env.Quick() && i%3 != int(env.Seed%3) {
+			continue
+		}
+		entry := "reader"
+		if i%2 == 0 {
+			entry = "chan"
+		}
+		ev := []gen.M{{"op": "check", "entry": entry, "src": "given", "cert": clauseList(e["cert"]), "mut": "none", "seed": 0}}
+		res = append(res, gen.M{"drv": "explain", "n": int(e["n"].(float64)), "clauses": clauseList(e["F"]), "ev": ev})
+	}
+	return res
+}
+
 func init() {
 	register(&core.Check{
 		ID:          "C07",
+		Designs: []core.Design{
+			{Name: "mus", Module: "MUS", Cfg: "MUS_quick.cfg", Tier: "quick", Workers: 8, XmxMB: 6000, Timeout: 10 * time.Minute, ToCases: musCases},
+			{Name: "mus", Module: "MUS", Cfg: "MUS_thorough.cfg", Tier: "thorough", Workers: 16, XmxMB: 12000, Timeout: 30 * time.Minute, ToCases: musCases},
+			{Name: "mus-unminimised", Module: "MUS", Cfg: "MUS_ascoded.cfg", Workers: 4, XmxMB: 4000, Timeout: 10 * time.Minute, ExpectViolation: "ResultIsMUS"},
+		},
 		TraceModule: "ExplainTrace",
 		Budget:      0,
 		Cases: func(env *core.Env) []core.Case {
@@ -98,6 +140,10 @@ func init() {
 
 	register(&core.Check{
 		ID:          "C08",
+		Designs: []core.Design{
+			{Name: "rupcheck", Module: "RUPCheck", Cfg: "RUPCheck_quick.cfg", Tier: "quick", Workers: 8, XmxMB: 6000, Timeout: 10 * time.Minute, ToCases: rupCases},
+			{Name: "rupcheck", Module: "RUPCheck", Cfg: "RUPCheck_thorough.cfg", Tier: "thorough", Workers: 16, XmxMB: 12000, Timeout: 40 * time.Minute, ToCases: rupCases},
+		},
 		TraceModule: "ExplainTrace",
 		Cases: func(env *core.Env) []core.Case {
 			r := env.Rand
